@@ -1,5 +1,6 @@
 import TruthModel.Driver.Sexp
 import TruthModel.Driver.C11
+import TruthModel.Driver.C17
 import TruthModel.Driver.C03
 /-
 Line-protocol driver: `truthmodel <property-id>` reads one S-expression case per line on stdin and
@@ -11,6 +12,7 @@ open TruthModel
 def handler (id : String) : Sexp → Sexp :=
   match id with
   | "C11" => Driver.C11.handle
+  | "C17" => Driver.C17.handle
   | "C03" => Driver.C03.handle
   | "C16" => Driver.C03.handle
   | _ => fun _ => .atom "unknown-property"
